@@ -405,3 +405,50 @@ def main_replay(pid, path):
         return 1
     print(f"replay {path}: holds")
     return 0
+
+
+def fuzz_tier_hyp(ctx, mod, quick_runs=2000, thorough_runs=40000):
+    """coverage-guided structured fuzzing: atheris mutates the choice sequence of the check's own Hypothesis strategy
+    (vf/fuzz/hyp.py, `fuzz_one_input`); failures come back as cases and are re-judged by the check."""
+    import shutil
+    if ctx.shard >= (4 if ctx.thorough else 1):
+        return
+    try:
+        sys.path.append(DEPS)
+        import atheris  # noqa: F401
+    except Exception:
+        ctx.label("fuzz_tier_skipped_atheris_missing")
+        return
+    runs = thorough_runs if ctx.thorough else quick_runs
+    tag = f"{mod.ID}-{ctx.tier}-{ctx.seed}-{ctx.shard}-{os.getpid()}"
+    out = os.path.join(WORK, f"hfuzz-{tag}.jsonl")
+    corpus = os.path.join(WORK, f"hcorpus-{tag}")
+    os.makedirs(corpus, exist_ok=True)
+    env = dict(os.environ, VF_FUZZ_OUT=out, VERIF_REPO=REPO, PYTHONHASHSEED="0")
+    cmd = [sys.executable, "-B", os.path.join(ROOT, "vf", "fuzz", "hyp.py"), mod.ID, f"-runs={runs}", f"-seed={ctx.hseed + 1}", corpus]
+    try:
+        subprocess.run(cmd, env=env, cwd=ROOT, stdout=subprocess.DEVNULL, stderr=subprocess.DEVNULL, timeout=3600)
+    except subprocess.TimeoutExpired:
+        ctx.label("fuzz_tier_timeout")
+    stats = {}
+    if os.path.exists(out + ".stats"):
+        with open(out + ".stats") as f:
+            stats = json.load(f)
+    ctx.ev(stats.get("cases", 0))
+    ctx.label("fuzz_execs", stats.get("execs", 0))
+    ctx.label("fuzz_valid_cases", stats.get("cases", 0))
+    ctx.extra["fuzz_corpus_files"] = len(os.listdir(corpus))
+    if os.path.exists(out):
+        with open(out) as f:
+            for line in f:
+                rec = json.loads(line)
+                try:
+                    fails = mod.judge(rec["case"])
+                except Exception:
+                    continue
+                ctx.fail_all(fails, rec["case"])
+                ctx.label("fuzz_reported_failures")
+    for pth in (out, out + ".stats"):
+        if os.path.exists(pth):
+            os.unlink(pth)
+    shutil.rmtree(corpus, ignore_errors=True)
